@@ -282,6 +282,13 @@ def _run_case(ctx, case, dcf):
     # every parser also gets a class-typed argument whose declared default is a spec *with* init_args (a declared default like any other)
     FXP = "vf.gen.fixtures."
     p.add_argument("--zcls", type=fixtures.Base, default={"class_path": FXP + "SubA", "init_args": {"p": 5, "q": "dq"}})
+    # ... an Any typed argument and a small group of nested arguments (for objects that hold class specs in plain containers, dict_kwargs,
+    # and a Namespace inside a dict)
+    from typing import Any, Tuple
+
+    p.add_argument("--zany", type=Any, default=None)
+    p.add_argument("--zgrp.a", type=int, default=0)
+    p.add_argument("--zgrp.t", type=Tuple[int, int], default=(0, 0))
     w = Watch(ctx, p, case)
     obj = P.as_object(copy.deepcopy(case["values"]), case["subcommand"])
     shapes = P.all_shapes(recipe)
@@ -320,6 +327,12 @@ def _run_case(ctx, case, dcf):
                lambda o, dflt=dflt: p.parse_object(o, defaults=dflt), dict(copy.deepcopy(obj), zcls={"class_path": FXP + "SubB"}))
         w.call(f"parse_string(class change of an argument with a default spec, defaults={dflt})",
                lambda t, dflt=dflt: p.parse_string(t, defaults=dflt), json.dumps({"zcls": {"class_path": FXP + "SubB", "init_args": {"r": [0.5]}}}))
+    spec_a = {"class_path": FXP + "SubA", "init_args": {"p": 1}}
+    w.call("parse_object(class specs in the containers of an Any typed argument)", p.parse_object,
+           dict(copy.deepcopy(obj), zany=[copy.deepcopy(spec_a), {"k": copy.deepcopy(spec_a)}, ({"class_path": FXP + "SubB"},)]))
+    w.call("parse_object(dict_kwargs that name parameters of the class)", p.parse_object,
+           dict(copy.deepcopy(obj), zcls={"class_path": FXP + "Loose", "dict_kwargs": {"p": 3, "extra": [1, {"a": 2}]}}))
+    w.call("parse_object(dict that holds a Namespace)", p.parse_object, dict(copy.deepcopy(obj), zgrp=Namespace(a=1, t=[1, 2])))
     w.call("get_defaults", p.get_defaults)
     # the caller owns what get_defaults() returned: editing it must not reach the parser (checked on a parser of its own, so
     # that a leak cannot disturb the other observations of this case)
